@@ -38,6 +38,12 @@ OPERATORS = ["drop_paren", "insert_paren", "drop_bracket", "drop_brace", "bd_bet
              "percent_range", "no_distribution", "drop_prefix", "prefix_symbol", "prefix_id", "open_mixture", "prefix_call"]
 
 
+# operators that break the *notation* (the constructor is the place where such a string is answered); the others break a rule of
+# generation (negative weight, missing distribution, prefix mismatch), where a non-generable object / an error at generate() is the answer
+PARSE_LEVEL = {"drop_paren", "insert_paren", "drop_bracket", "drop_brace", "bd_between_atoms", "unknown_symbol", "unknown_distribution",
+               "list_length", "text_after_mixture", "percent_range", "open_mixture"}
+
+
 def plan(tier, seed):
     cfgs = [{} for _ in range(14 if tier == "quick" else 8)]
     if tier == "quick":
@@ -415,6 +421,15 @@ def judge(acc, op, valid_text, broken, note, kind, nontrivial):
                           {**case, "ctor": cname}, {**sig, "generable": gen_flag}, size=len(broken))
         else:
             acc.label(f"outcome:{op}:{'nongenerable+' if not gen_flag else ''}generate_raise")
+            if op in PARSE_LEVEL and gen_flag:
+                # the notation itself is ill-formed: an object that presents itself as generable notation (and prints as something
+                # else than was written) is "an object of different meaning", even if generating from it fails later
+                try:
+                    printed = str(obj)
+                except Exception:  # noqa: BLE001
+                    printed = "<str raised>"
+                acc.violation("rejected", f"{note}: {cname}({broken!r}) returns an object that reports generable=True and prints as {printed!r} "
+                              f"(only generate() fails)\n valid instance: {valid_text!r}", {**case, "ctor": cname}, {**sig, "generable": True, "deferred": True}, size=len(broken))
             if op in ("negative_weight", "no_distribution") and gen_flag:
                 acc.violation("not_generable_flag", f"{note}: {cname}({broken!r}) reports generable=True", {**case, "ctor": cname}, sig, size=len(broken))
 
